@@ -44,6 +44,12 @@ func vnRenderJS(out []byte, list []vnS, names []byte) []byte {
 			out = append(append(append(out, "const "...), id(s.site)...), "=0;"...)
 		case "use":
 			out = append(append(out, id(s.site)...), ';')
+		case "puse": // a parenthesised expression that looks like an arrow head
+			out = append(append(append(out, '('), id(s.site)...), ')', ';')
+		case "arrow1": // x => {body}
+			out = append(append(append(out, '('), id(s.params[0])...), "=>{"...)
+			out = vnRenderJS(out, s.body, names)
+			out = append(out, "});"...)
 		case "class":
 			out = append(append(append(out, "class "...), id(s.site)...), "{}"...)
 		case "block":
@@ -230,13 +236,13 @@ func (r *vnResolver) scope(sc *vnScope, list []vnS) {
 	}
 	for i, s := range list {
 		switch s.k {
-		case "use":
+		case "use", "puse":
 			r.use(sc, s.site)
 		case "block", "catch", "forlet":
 			r.scopeBody(inner[i], s.body)
 		case "func":
 			r.function(sc, s)
-		case "arrow":
+		case "arrow", "arrow1":
 			r.function(sc, s)
 		case "fexpr":
 			ns := &vnScope{parent: sc}
@@ -273,11 +279,11 @@ func (r *vnResolver) scopeBody(sc *vnScope, list []vnS) {
 	}
 	for i, s := range list {
 		switch s.k {
-		case "use":
+		case "use", "puse":
 			r.use(sc, s.site)
 		case "block", "catch", "forlet":
 			r.scopeBody(inner[i], s.body)
-		case "func", "arrow":
+		case "func", "arrow", "arrow1":
 			r.function(sc, s)
 		case "fexpr":
 			ns := &vnScope{parent: sc}
@@ -316,6 +322,10 @@ var vnSkeletons = []struct {
 	{6, []vnS{vnD("var", 0), {k: "func", site: 1, params: []int{2}, defs: []int{3}, body: []vnS{vnU(4), vnD("var", 5)}}}}, // 14: default refers outward, body uses a later local var
 	{6, []vnS{vnD("var", 0), {k: "forlet", site: 1, body: []vnS{vnU(2), vnD("let", 3), vnBlk(vnU(4))}}, vnU(5)}},       // 15: loop body with use before let
 	{5, []vnS{vnD("var", 0), {k: "arrow", site: -1, params: []int{1}, defs: []int{2}, body: []vnS{vnU(3), vnD("let", 4)}}}}, // 16: arrow default + later let
+	{6, []vnS{vnD("var", 0), {k: "func", site: 1, params: []int{2}, defs: []int{3}, body: []vnS{vnD("var", 4), {k: "puse", site: 5}}}}}, // 17: parenthesised use after a local var
+	{5, []vnS{vnD("let", 0), {k: "puse", site: 1}, vnBlk(vnD("let", 2), vnS{k: "puse", site: 3}), vnU(4)}},                        // 18: parenthesised uses in nested scopes
+	{4, []vnS{vnD("var", 0), {k: "arrow1", site: -1, params: []int{1}, body: []vnS{vnU(2)}}, vnU(3)}},                           // 19: x => body
+	{6, []vnS{vnD("var", 0), {k: "forlet", site: 1, body: []vnS{vnD("let", 2), {k: "puse", site: 3}}}, {k: "puse", site: 4}, vnU(5)}}, // 20
 }
 
 // VerifScope: all identifier occurrences that denote the same binding share one Var;
